@@ -1,9 +1,82 @@
+// C11 — an image faithfully stands in for its sources, in every encoding.
+//
+// (a) encoding_test.go  image -> {binpb,json,txtpb,yaml} x {none,gzip,zstd} x {--exclude-imports,
+//     --exclude-source-info, --as-file-descriptor-set} -> read back == original, at the API level
+//     (protoencoding + bufimage + buffetch reader/writer) and through `buf build` in-process.
+// (b) packaging_test.go  dir / tar / tar.gz / tgz / tar.zst / zip (+strip_components, +subdir) build to
+//     byte-identical images; `buf export` output builds to the same descriptors.
+// (c) paths_test.go      --path / --exclude-path: module-level targeting vs image-level filtering, both
+//     against the documented selection (reference written here), API and CLI.
+// (d) checks_test.go     lint / breaking against the image == against the sources, API and CLI.
+//
+// Oracles: round trip; differential of two independent code paths; reference selection model. All
+// descriptor comparisons are made after re-interpreting both sides with a resolver the harness
+// builds from the ORIGINAL image with protodesc/dynamicpb (custom options are parsed fields, never
+// opaque bytes).
 package c11
 
 import (
+	"context"
+	"encoding/json"
+	"os"
 	"testing"
 
 	"github.com/bufbuild/bufverif/internal/evid"
 )
 
 func TestMain(m *testing.M) { evid.Main(m, "C11") }
+
+// TestReplay re-runs the oracle of a saved case (sources, flags, path sets are all in the case).
+func TestReplay(t *testing.T) {
+	var kind struct {
+		Kind string `json:"kind"`
+	}
+	ok, err := evid.ReplayCase(&kind)
+	if !ok {
+		t.Skip("no VERIF_REPLAY")
+	}
+	if err != nil {
+		t.Fatal(err)
+	}
+	r := evid.R()
+	defer r.Begin(t)()
+	ctx := context.Background()
+	load := func(v any) {
+		if _, err := evid.ReplayCase(v); err != nil {
+			t.Fatal(err)
+		}
+	}
+	switch kind.Kind {
+	case "enc-api":
+		var c EncCase
+		load(&c)
+		runEncAPI(ctx, t, r, &c, t.TempDir())
+	case "enc-cli":
+		var c EncCase
+		load(&c)
+		runEncCLI(ctx, t, r, &c)
+	case "packaging":
+		var c PkgCase
+		load(&c)
+		runPackaging(ctx, t, r, &c)
+	case "paths-api":
+		var c PathCase
+		load(&c)
+		runPathsAPI(ctx, t, r, &c)
+	case "paths-cli":
+		var c PathCase
+		load(&c)
+		runPathsCLI(ctx, t, r, &c)
+	case "checks-api":
+		var c ChkCase
+		load(&c)
+		runChecksAPI(ctx, t, r, &c)
+	case "checks-cli":
+		var c ChkCase
+		load(&c)
+		runChecksCLI(ctx, t, r, &c)
+	default:
+		data, _ := json.Marshal(kind)
+		t.Fatalf("harness: unknown case kind %s in %s", data, os.Getenv("VERIF_REPLAY"))
+	}
+}
